@@ -223,6 +223,48 @@ theorem v1_drops_headers (crc : Bytes → Nat) (attrs now : Int) : ∀ (rs : Lis
     simp only [writeV1, List.map_cons, v1_drops_headers crc attrs now rs (i + 1)]
     rfl
 
+/-- **the sizing and the writing of the variable-length record fields agree, in the source as it is now** (go/ast,
+`go/extract sizefns` → Gen/SizeFns): `sizeOfVarString` / `sizeOfVarNullBytes` / `sizeOfVarNullBytesIface` size their length
+prefix with the zig-zag `sizeOfVarInt`, exactly as `writeVarString` / `writeVarNullBytes` / `writeVarNullBytesFrom` write it
+with `writeVarInt`; both zig-zag maps shift by 1 and 63; `sizeOfUnsignedVarInt` is `(bits.Len64(i|1) + 6) / 7`; and the
+per-record length of `writeToVersion2` adds up the sizers of exactly the fields the record loop writes, in their order.
+(The writer model computes the length with the extracted names: `recordV2_eq` depends on them.) -/
+theorem gen_size_calls :
+    Gen.SizeFns.varStringCalls = ["sizeOfVarInt"] ∧ Gen.SizeFns.writeVarStringCalls = ["writeVarInt"] ∧
+    Gen.SizeFns.varNullBytesCalls = ["sizeOfVarInt", "sizeOfVarInt"] ∧
+    Gen.SizeFns.writeVarNullBytesCalls = ["writeVarInt", "writeVarInt"] ∧
+    Gen.SizeFns.varNullBytesIfaceCalls = ["sizeOfVarInt", "sizeOfVarInt"] ∧
+    Gen.SizeFns.writeVarNullBytesFromCalls = ["writeVarInt", "writeVarInt"] ∧
+    Gen.SizeFns.varIntCalls = ["sizeOfUnsignedVarInt"] ∧ Gen.SizeFns.writeVarIntCalls = ["writeUnsignedVarInt"] ∧
+    Gen.SizeFns.varIntShifts = [1, 63] ∧ Gen.SizeFns.writeVarIntShifts = [1, 63] ∧
+    Gen.SizeFns.unsignedConsts = [1, 6, 7] ∧
+    Gen.SizeFns.recordLengthCalls = ["sizeOfVarInt", "sizeOfVarInt", "sizeOfVarNullBytesIface", "sizeOfVarNullBytesIface",
+      "sizeOfVarInt", "sizeOfVarString", "sizeOfVarNullBytes"] := by decide
+
+/-- the same for the Conn path (write.go / recordbatch.go): `recordSize` adds up `var…Len` of exactly what `writeRecord`
+writes, in its order; every `var…Len` helper sizes its prefix with `varIntLen`, whose zig-zag shifts are 1 and 63 and which
+counts 7 bits per byte from the threshold 0x80 (Model/RecordWriter `varIntLen`, `recordSize`; `legacyBatch_spec`) -/
+theorem gen_legacy_size_calls :
+    Gen.SizeFns.legacyRecordSizeCalls =
+      ["varIntLen", "varIntLen", "varBytesLen", "varBytesLen", "varArrayLen", "varStringLen", "varBytesLen"] ∧
+    Gen.SizeFns.legacyWriteRecordCalls =
+      ["writeVarInt", "writeInt8", "writeVarInt", "writeVarInt", "writeVarBytes", "writeVarBytes", "writeVarArray",
+        "writeVarString", "writeVarBytes"] ∧
+    Gen.SizeFns.legacyVarBytesLenCalls = ["varIntLen"] ∧ Gen.SizeFns.legacyVarStringLenCalls = ["varIntLen"] ∧
+    Gen.SizeFns.legacyVarArrayLenCalls = ["varIntLen"] ∧
+    Gen.SizeFns.legacyVarIntLenShifts = [1, 63] ∧ Gen.SizeFns.legacyVarIntLenLits = [1, 63, 0, 128, 7, 1] := by decide
+
+/-- the record length the v2 writer announces is the number of bytes the record body occupies — for EVERY record, in
+particular at the sizes where the zig-zag varint of a length is one byte longer than the unsigned one (64..127,
+8192..16383, …: seeded change C05-m7) -/
+theorem v2_record_length_exact (first : Int) (i : Nat) (t : Int) (r : PRec) :
+    ∃ body, recordV2 first i t r = varint (body.length : Int) ++ body ∧
+      readRec (recordV2 first i t r) = some (specRec (t - first) i r, []) := by
+  refine ⟨recBody (specRec (t - first) i r), by rw [recordV2_eq]; rfl, ?_⟩
+  rw [recordV2_eq]
+  have := readRec_encRec (specRec (t - first) i r) []
+  simpa using this
+
 /-! ## Part F — the library's DECODER on the Client.Fetch path (Model/RecordReader) -/
 
 open Model.RecordReader in
